@@ -22,11 +22,18 @@ type c5greet struct{ From string }
 // the first one must be OnLaunch.
 func runFirstMessageStress(children int, byPath bool) ([]*Trace, error) {
 	var target atomic.Pointer[actor.Context]
+	var ph atomic.Int64
 	verifhook.Set(func(point string, obj any, arg any) {
 		if point == "ctx.actorof.launch" {
 			if c, ok := obj.(*actor.Context); ok && c == target.Load() {
 				time.Sleep(30 * time.Microsecond)
 			}
+		}
+		// a consumer that has found the system queue empty is held for a moment before it looks at the pause flag: what
+		// happens to the mailbox in between (OnLaunch enqueued, mailbox resumed) meets a consumer that is already past
+		// the system queue
+		if point == "mb.ph.load_paused" && ph.Add(1)%3 == 0 {
+			time.Sleep(40 * time.Microsecond)
 		}
 	})
 	defer verifhook.Set(nil)
